@@ -16,6 +16,7 @@ computed by a function parameter of the model (the driver plugs in the C30 model
 Core-only.
 -/
 import SquidModel.Header.Parse
+import SquidModel.Hop.StrList
 
 namespace SquidModel.Smuggle
 open SquidModel SquidModel.Header
@@ -79,6 +80,30 @@ def expectSupported (es : List Entry) : Option Bool :=
   match strListJoin [] ((es.filter (·.id == idExpect)).map (·.value)) with
   | none => none
   | some s => some (eqIgnoreCase s hundredContinue)
+
+/-! ### persistence (`clientSetKeepaliveFlag` = `Http::Message::persistent()`) -/
+
+def idConnection : Nat := Gen.HeaderRegistry.Id.CONNECTION
+def idProxyConnection : Nat := Gen.HeaderRegistry.Id.PROXY_CONNECTION
+
+def dirClose : Bytes := [99, 108, 111, 115, 101]
+def dirKeepAlive : Bytes := [107, 101, 101, 112, 45, 97, 108, 105, 118, 101]
+
+/-- `httpHeaderHasConnDir(&header, directive)`: the joined Connection values (else, with USE_HTTP_VIOLATIONS, the joined
+Proxy-Connection values) have the member -/
+def hasConnDir (es : List Entry) (dir : Bytes) : Bool :=
+  if hasId es idConnection then
+    Hop.isMember (Hop.joinValues ((es.filter (·.id == idConnection)).map (·.value))) dir
+  else if hasId es idProxyConnection then
+    Hop.isMember (Hop.joinValues ((es.filter (·.id == idProxyConnection)).map (·.value))) dir
+  else false
+
+/-- `http_ver > Http::ProtocolVersion(1,0)` -/
+def verGt10 (vmaj vmin : Nat) : Bool := vmaj > 1 || (vmaj == 1 && vmin > 0)
+
+/-- `Http::Message::persistent()` -/
+def persistent (es : List Entry) (vmaj vmin : Nat) : Bool :=
+  if verGt10 vmaj vmin then !hasConnDir es dirClose else hasConnDir es dirKeepAlive
 
 /-! ### urlCheckRequest -/
 
